@@ -261,7 +261,7 @@ func (m *Machine) tick() (bool, error) {
 		b := pop[machine.Monetary](m)
 		a := pop[machine.Monetary](m)
 		if a.Asset != b.Asset {
-			return true, fmt.Errorf("%s", program.OpcodeName(op))
+			return true, machine.NewErrInvalidScript("cannot subtract different assets: %v and %v", a.Asset, b.Asset)
 		}
 		m.pushValue(machine.Monetary{
 			Asset:  a.Asset,
